@@ -89,6 +89,26 @@ def r10_1(ctx: Ctx):
                 else:
                     stt = INCONCLUSIVE
                 obs.append(ctx.ob("R10.1", g, st, status=stt, detail="tabled extra: best individual of a just-finished deme" if stt == OK else f"the local-method extra candidate is offered under `{ctext}`", construct="local-extra"))
+                # "just finished": the deme's last metaepoch is the tree's current one, started_at + number of recorded
+                # METAEPOCHS (len(_history) = metaepoch_count + 1) == tree.metaepoch_count
+                tp_ = g.params()[1] if len(g.params()) > 1 else "tree"
+                atoms_ = conds[0].values if len(conds) == 1 and isinstance(conds[0], ast.BoolOp) and isinstance(conds[0].op, ast.And) else conds
+                flat_ = []
+                for a_ in atoms_:
+                    flat_.extend(a_.values if isinstance(a_, ast.BoolOp) and isinstance(a_.op, ast.And) else [a_])
+                rec = [a_ for a_ in flat_ if isinstance(a_, ast.Compare) and any(isinstance(x, ast.Attribute) and x.attr == "metaepoch_count" and canon(x.value) == tp_ for x in ast.walk(a_))]
+                if not rec:
+                    st_r, why_r = VIOLATION, f"the extra candidate of a stopped deme is offered whenever `{ctext}`: nothing restricts it to the deme that has JUST finished, so long-finished demes keep offering their best individual"
+                else:
+                    t_ = canon(rec[0])
+                    want_ = {f"{key}.started_at+len({key}._history)=={tp_}.metaepoch_count", f"{tp_}.metaepoch_count=={key}.started_at+len({key}._history)", f"{key}.started_at+{key}.metaepoch_count+1=={tp_}.metaepoch_count", f"{key}._started_at+len({key}._history)=={tp_}.metaepoch_count", f"len({key}._history)+{key}.started_at=={tp_}.metaepoch_count"}
+                    if t_ in want_:
+                        st_r, why_r = OK, ""
+                    elif re.search(r"len\(" + re.escape(key) + r"\.(history|all_individuals|current_population)\)", t_):
+                        st_r, why_r = VIOLATION, f"`{norm(rec[0])}` counts the deme's recorded GENERATIONS / individuals, not its metaepochs: with several generations per metaepoch the test is true long after the deme stopped (or never), so a deme that is not the just-finished one offers its best individual"
+                    else:
+                        st_r, why_r = INCONCLUSIVE, f"cannot tell whether `{norm(rec[0])}` singles out the deme that finished in the current metaepoch"
+                obs.append(ctx.ob("R10.1", g, st, status=st_r, detail="the extra candidate comes from the deme that finished in the current metaepoch" if st_r == OK else why_r, construct="local-extra-recent"))
             else:
                 if implies(conj, act):
                     stt = OK
@@ -330,7 +350,23 @@ def r10_6(ctx: Ctx):
     seeds_name = None
     if isinstance(v, ast.ListComp) and len(v.generators) == 1 and v.generators[0].ifs and isinstance(v.generators[0].target, ast.Name):
         ind = v.generators[0].target.id
-        ifs = v.generators[0].ifs
+        ifs = list(v.generators[0].ifs)
+        # further conjuncts next to the isclose test: a membership test of the candidate in a list of individuals compares by
+        # `==`, which for individuals is equality of FITNESS - a candidate with another genome but a tied fitness is rejected
+        flat = []
+        for c_ in ifs:
+            flat.extend(c_.values if isinstance(c_, ast.BoolOp) and isinstance(c_.op, ast.And) else [c_])
+        core = [c_ for c_ in flat if any(isinstance(x, ast.Call) and norm(x.func).split(".")[-1] in ("isclose", "allclose", "array_equal") for x in ast.walk(c_))]
+        extra = [c_ for c_ in flat if c_ not in core]
+        from .c13 import _is_individual_collection
+
+        for c_ in extra:
+            if isinstance(c_, ast.Compare) and len(c_.ops) == 1 and isinstance(c_.ops[0], (ast.In, ast.NotIn)) and norm(c_.left) == ind and (_is_individual_collection(ctx, f, c_.comparators[0]) or any("_sprout_seed" in norm(d_) or "sprout_seed" in norm(d_) for d_ in defs.get(norm(c_.comparators[0]), []))):
+                obs.append(ctx.ob("R10.6", f, c_, status=VIOLATION, detail=f"SkipSameSprout also drops a candidate when `{norm(c_)}` fails: membership in a list of individuals uses `==`, which compares FITNESS, so a candidate that differs from every existing seed but ties with one in fitness is rejected", construct="eq-lookup"))
+                return obs
+        if extra and core:
+            obs.append(ctx.ob("R10.6", f, extra[0], status=INCONCLUSIVE, detail=f"SkipSameSprout keeps a candidate only if also `{norm(extra[0])[:70]}`", construct="extra-conjunct"))
+            return obs
         cond = ifs[0] if len(ifs) == 1 else ast.BoolOp(op=ast.And(), values=list(ifs))
         negated = False
         inner = cond
